@@ -70,6 +70,7 @@ import Apko.Generated.IndexOrder
 import Apko.Generated.Glue
 import Apko.Generated.Alias
 import Apko.Proofs.Lemmas.MemoHistory
+import Apko.Proofs.TransResolver
 
 namespace Apko.C01
 open Apko
@@ -425,6 +426,29 @@ theorem comparePackages_eq_same_name (name pin : Text) (existing : List (Text ×
     (origins : List Text) (a b : Pkg)
     (h : comparePackages .eq name pin existing origins a b = .eq) : a.name = b.name :=
   Cmp.comparePackages_eq_same_name name pin existing origins a b h
+
+open Resolver in
+/-- T `comparePackages_code_ties_same_name`: the same about the comparator AS TRANSLATED FROM repo.go on this run
+(`Generated.Trans.comparePackages`, Go's `-1 / 0 / +1`; `TransResolver.trans_comparePackages`): whenever the closure
+`comparePackages` returns answers 0 the two packages have one name, so among the differently named providers that
+`newPkgResolver`'s map range appended to `nameMap[virtual]` in map order the comparator never leaves the choice to
+`slices.MinFunc`'s "first minimal element". -/
+theorem comparePackages_code_ties_same_name (name pin : Text) (existing : List (Text × Pkg))
+    (origins : List Text) (a b : Pkg)
+    (h : Generated.Trans.comparePackages none name existing origins pin a b = 0) : a.name = b.name := by
+  rw [TransResolver.trans_comparePackages] at h
+  apply comparePackages_eq_same_name name pin existing origins a b
+  cases hc : comparePackages .eq name pin existing origins a b <;> simp [hc, Trans.ordInt] at h ⊢
+
+/-- two providers of `tool=2` with one package version, one origin, equal priority: only the name is left -/
+def tieProbe (id : Nat) (name : String) : Pkg :=
+  ⟨id, name.toList, "1.0-r0".toList, "tool-src".toList, "r".toList, [], 0, [], ["tool=2".toList], []⟩
+
+/-- the hypothesis is satisfiable (a package against its copy in another index), and on the tied providers the
+translated comparator decides by name in both directions -/
+example : Generated.Trans.comparePackages none "tool".toList [] [] [] (tieProbe 0 "alt-a") (tieProbe 1 "alt-a") = 0 := by decide
+example : Generated.Trans.comparePackages none "tool".toList [] [] [] (tieProbe 0 "alt-a") (tieProbe 1 "alt-b") = -1 := by decide
+example : Generated.Trans.comparePackages none "tool".toList [] [] [] (tieProbe 1 "alt-b") (tieProbe 0 "alt-a") = 1 := by decide
 
 open Resolver in
 /-- F08b witness: the PINNED comparator (`bothBad = .gt`: both provided versions unparsable ⇒
